@@ -258,6 +258,16 @@ func (l *kgoLogger) Log(level kgo.LogLevel, msg string, keyvals ...any) {
 		fmt.Fprintf(&b, " %v=%v", keyvals[i], keyvals[i+1])
 	}
 	l.s.Logf("%s", b.String())
+	// the logger is application code too: it may take time (seeded yield)
+	if y := l.s.P.Knob("log_yield_pct", 0); y > 0 && int64(l.s.Pick(100)) < y {
+		l.s.Count("log.yields", 1)
+		runtime.Gosched()
+	}
+	// ... and a warning or error may go to a slow sink
+	if sl := l.s.P.Knob("log_sleep_pct", 0); sl > 0 && level <= kgo.LogLevelWarn && int64(l.s.Pick(100)) < sl {
+		l.s.Count("log.sleeps", 1)
+		time.Sleep(time.Duration(100+l.s.Pick(int(l.s.P.Knob("log_sleep_max_us", 5000)))) * time.Microsecond)
+	}
 }
 
 type kfakeLogger struct{ s *Sim }
